@@ -243,8 +243,7 @@ func init() {
 							}
 							// does this edge lead straight to an error return?
 							succ := b.Succs[si]
-							ret, isRet := succ.Instrs[len(succ.Instrs)-1].(*ssa.Return)
-							if !isRet || !definitelyNonNilErr(ret.Results[idx], succ) {
+							if !rejectingBlock(succ, idx) {
 								continue
 							}
 							cons := "reject when " + pathOf(x) + " " + op.String() + " remaining"
@@ -435,4 +434,39 @@ func isRemainCall(v ssa.Value, rd ssa.Value) bool {
 func isLenOf(v ssa.Value, of ssa.Value) bool {
 	c, ok := v.(*ssa.Call)
 	return ok && builtinName(&c.Call) == "len" && strip(c.Call.Args[0], false) == of
+}
+
+// rejectingBlock: control entering b ends in an error: b returns a definitely non-nil error, or b
+// only builds an error (fmt.Errorf / errors.New) and jumps to a merge point where that error is one of
+// the values of an error-typed phi (the shape of an in-line expanded checking helper).
+func rejectingBlock(b *ssa.BasicBlock, idx int) bool {
+	switch t := b.Instrs[len(b.Instrs)-1].(type) {
+	case *ssa.Return:
+		return idx < len(t.Results) && definitelyNonNilErr(t.Results[idx], b)
+	case *ssa.Jump:
+		var made ssa.Value
+		for _, in := range b.Instrs {
+			if c, ok := in.(*ssa.Call); ok {
+				id := funcID(calleeObj(&c.Call))
+				if id == "fmt.Errorf" || id == "errors.New" {
+					made = c
+				}
+			}
+		}
+		if made == nil {
+			return false
+		}
+		for _, in := range b.Succs[0].Instrs {
+			phi, ok := in.(*ssa.Phi)
+			if !ok {
+				break
+			}
+			for i, e := range phi.Edges {
+				if b.Succs[0].Preds[i] == b && e == made && isErrorType(phi.Type()) {
+					return true
+				}
+			}
+		}
+	}
+	return false
 }
